@@ -98,6 +98,15 @@ class OProver(CProver):
         return False
 
 
+# functions that allocate space for a number of elements given as an argument: key -> index of that argument
+ALLOC_SIZED = {
+    "std::vec::Vec::with_capacity": 0, "std::vec::Vec::reserve": 1, "std::vec::Vec::reserve_exact": 1,
+    "std::vec::Vec::try_reserve": 1, "std::vec::from_elem": 1, "std::vec::Vec::resize": 1, "std::vec::Vec::resize_with": 1,
+    "std::collections::VecDeque::with_capacity": 0, "std::string::String::with_capacity": 0,
+    "std::vec::Vec::with_capacity_in": 0,
+}
+
+
 def oprover(m, env, e, extra=()):
     def cf(f):
         return tuple(m.canon(x) if isinstance(x, tuple) and x and isinstance(x[0], str) else x for x in f)
@@ -255,6 +264,19 @@ def rule_ovf(env, shared):
                            "can overflow / wrap for ranges ending near the maximum" % (fmt(a)[:80], fmt(b)[:80])))
             else:
                 put(Ob("OVF", key, "undecided", e.loc(), "generic subtraction not analysed"))
+        elif e.kind == "call" and e.info.get("mkey") in ALLOC_SIZED and len(e.args) > ALLOC_SIZED[e.info.get("mkey")]:
+            # memory proportional to a caller-chosen size on a pull path: `capacity overflow` / allocation failure for
+            # sizes near usize::MAX (only the buffered puller's constructor allocates chunk_size slots by documentation)
+            amt = e.args[ALLOC_SIZED[e.info["mkey"]]]
+            key = "OVF.alloc|%s|%s" % (owner_key(e), e.info["mkey"].split("::")[-1])
+            t = tainted(env, amt, top_body)
+            if t and u is not None:
+                put(Ob("OVF.alloc", key, "viol", e.loc(),
+                       "a %s pull of %s allocates space for %s elements up front (%s): a request near usize::MAX panics "
+                       "with `capacity overflow` (and ends the iteration through the panic guard) although only the "
+                       "delivered elements need space" % (u.kind, u.world["name"], fmt(unref(amt))[:60], t)))
+            else:
+                put(Ob("OVF.alloc", key, "ok", e.loc(), "allocation size is not a caller-chosen chunk size on a pull path"))
         elif e.kind == "atomic" and e.info["op"] == "fetch_add":
             role, adt = env.R.classify(e.info["place"])
             if role != "pos":
@@ -264,9 +286,9 @@ def rule_ovf(env, shared):
             t = tainted(env, amt, top_body) if amt is not None else None
             kind = env.R.impl[adt]["kind"]
             if t and kind == "ticket":
-                put(Ob("OVF", key + "|ticket", "ok", e.loc(),
-                       "tabled: the wrapper over an arbitrary iterator has no length to clamp to; after a chunk that "
-                       "large the source is exhausted and every later ticket ends in the end flag"))
+                # the wrapper over an arbitrary iterator has no length to clamp to: decided by rule OVF.ticket
+                # (rule_ovf_ticket), which belongs to the properties about exclusive use / boundary chunk sizes
+                pass
             elif t:
                 put(Ob("OVF", key, "viol", e.loc(),
                        "the position counter of %s is advanced by an unbounded amount (%s): a chunk size near usize::MAX "
@@ -274,6 +296,7 @@ def rule_ovf(env, shared):
             else:
                 am = m.canon(unref(amt))
                 Lt = env.R.impl[adt].get("len_term")
+                Lc = None
                 bounded = am[0] == "int"
                 if not bounded and kind == "known" and Lt is not None:
                     # the amount must be clamped to (something <=) LEN of this very iterator
@@ -290,6 +313,25 @@ def rule_ovf(env, shared):
                         bounded = oprover(m, env, e).le(am, Lc)
                 elif kind == "ticket":
                     bounded = True
+                if bounded and kind == "known" and am[0] != "int" and Lt is not None:
+                    # bounded amounts still add up: an exhausted iterator must not be advanced at all, otherwise polling it
+                    # usize::MAX / LEN times after the end wraps the counter back to delivered positions
+                    kw = "OVF.wrap|%s|%s" % (env.sname(adt), env.fname(top_body))
+                    pl = unref(e.info["place"])
+                    guarded = False
+                    Lc2 = Lc
+                    for f in oprover(m, env, e).facts:
+                        if f[0] == "lt" and len(f) == 3 and f[1][0] == "atomic" and f[1][1] == "load" \
+                                and m.canon(unref(f[1][2])) == m.canon(pl) and Lc2 is not None and f[2] == Lc2:
+                            guarded = True
+                    if guarded:
+                        put(Ob("OVF.wrap", kw, "ok", e.loc(), "the counter is advanced only while it is below LEN", True))
+                    else:
+                        put(Ob("OVF.wrap", kw, "viol", e.loc(),
+                               "every pull of %s advances the position counter by up to LEN even when the source is exhausted; "
+                               "after about usize::MAX / LEN pulls past the end the counter wraps and delivered positions are "
+                               "handed out again (2 further pulls suffice for a source longer than usize::MAX / 2)"
+                               % env.sname(adt)))
                 if bounded:
                     put(Ob("OVF", key, "ok", e.loc(), "reservation amount is bounded by LEN: %s" % fmt(am)[:80], True))
                 else:
@@ -326,6 +368,52 @@ def rule_ovf(env, shared):
                 continue
             site(e, None, b, anchored)
     return list(out.values())
+
+
+def rule_ovf_ticket(env, shared):
+    """OVF.ticket: tickets of the wrapper over an arbitrary iterator are unique among the pulls in flight only while the
+    ticket counter does not wrap. A reservation of a caller-chosen, unclamped, unchecked amount can wrap it (the one-shot
+    chunk pull: `next_chunk(usize::MAX)` followed by two single pulls gives ticket 0 to a second caller while the first is
+    still inside the wrapped iterator). Buffered pulls reserve their buffer length, which the allocation bounds."""
+    m = _m1(env)
+    out = []
+    R = env.R
+    for u in m.units:
+        base = m.base_impl(u.world)
+        if R.impl[base]["kind"] != "ticket" or u.world.get("inner"):
+            continue
+        for e in u.events:
+            if not (e.kind == "atomic" and e.info["op"] == "fetch_add"):
+                continue
+            role, adt = R.classify(e.info["place"])
+            if role != "pos" or len(e.args) < 2:
+                continue
+            key = "OVF.ticket|%s|%s" % (env.sname(adt), u.kind)
+            if any(o.key == key for o in out):
+                continue
+            amt = unref(e.args[1])
+            t = tainted(env, amt, u.body)
+            loc = u.body.file_line()
+            if amt[0] == "int":
+                out.append(Ob("OVF.ticket", key, "ok", loc, "constant amount %s: 2^64 pulls would be needed to wrap" % fmt(amt)))
+            elif t and t.startswith("parameter"):
+                checked = any(f[0] == "no_ovf" for f in env.event_facts(e))
+                out.append(Ob("OVF.ticket", key, "ok" if checked else "viol", loc,
+                              "reservation is overflow-checked" if checked else
+                              "the %s pull of %s advances the ticket counter by the caller's chunk size (%s) with a wrapping "
+                              "fetch_add: with a size near usize::MAX the counter wraps while the pull is still in flight, a "
+                              "later pull is given the same ticket and enters the wrapped iterator at the same time "
+                              "(data race on the iterator's state, elements delivered out of order)" % (
+                                  u.kind, env.sname(adt), t), True))
+            elif t:
+                out.append(Ob("OVF.ticket", key, "ok", loc,
+                              "tabled: amount is the length of the puller's buffer (%s), which had to be allocated: two such "
+                              "reservations in flight cannot add up to 2^64" % t))
+            else:
+                out.append(Ob("OVF.ticket", key, "ok", loc, "amount %s is not caller-chosen" % fmt(amt)[:60]))
+    if not out:
+        out.append(Ob("OVF.ticket", "OVF.ticket|anchor", "viol", "-", "no reservation of the ticket implementor found"))
+    return out
 
 
 def _top_of(e, top):
